@@ -681,6 +681,60 @@ class Checker:
                        'returns at once - sources are not sent, received messages are neither forwarded nor given to the sinks'
                        % ('line %s' % pth.ret_line if pth.ret_line else 'its end', f_, last, v0), line=pth.ret_line or st[-1][2])
 
+    # -------------------------------------------------------------- R19.9
+    def r199(self):
+        """Every message handed to an endpoint is transmitted: whether sendData transmits may depend on the endpoint (open / closed), never on
+        what the message is.  The hub hands endpoints exactly what was received or produced - including '' (a zero-length datagram) and other
+        falsy payloads - after filtering None itself, so a value test in sendData drops messages the router has counted as delivered."""
+        from ..engine.paths import paths_of
+        rep = self.rep
+        rep.rule('R19.9', 'sendData (every endpoint class, and the hub) transmits every message: no path that skips the transmission is selected by a test '
+                          'of the message value (identity tests against None excepted)')
+        base = self.model.cls('basic_robotics.interfaces.comms_object', 'CommsObject')
+        targets = [c.methods['sendData'] for c in self.model.subclasses(base) if 'sendData' in c.methods]
+        if 'sendData' in self.comms.methods:
+            targets.append(self.comms.methods['sendData'])
+        n = 0
+        for fi in targets:
+            msgp = fi.params[2] if fi in self.comms.methods.values() and len(fi.params) > 2 else (fi.params[1] if len(fi.params) > 1 else None)
+            if msgp is None:
+                continue
+            try:
+                ps = paths_of(fi.node, fi.params)
+            except RuntimeError as ex:
+                rep.unresolved_item('R19.9', fi.where, 'paths of %s not summarised (%s)' % (fi.qualname, ex))
+                continue
+            n += 1
+            bad = None
+            for pth in ps:
+                if pth.kind not in ('return', 'fall'):
+                    continue
+
+                def mentions(txt):
+                    try:
+                        return any(isinstance(x, ast.Name) and x.id == msgp for x in ast.walk(ast.parse(txt, mode='eval')))
+                    except SyntaxError:
+                        return msgp in txt
+                sent = any(e[0] == 'call' and any(mentions(a) for a in (e[4] if len(e) > 4 else e[2])) for e in pth.events)
+                if sent:
+                    continue
+                for k, truth in pth.facts.items():
+                    srck = pth.fact_src.get(k, k)
+                    if not mentions(srck):
+                        continue
+                    kk = k.replace(' ', '')
+                    if kk in ('%sisNone' % msgp, '%s==None' % msgp, '%sisnotNone' % msgp, '%s!=None' % msgp):
+                        continue
+                    bad = (srck, truth, pth.ret_line)
+                    break
+                if bad:
+                    break
+            rep.ob('R19.9', fi, '%s transmits whatever the message is' % fi.qualname, bad is None,
+                   ('%s skips the transmission when `%s` is %s: a valid message for which that holds (the empty string of a zero-length datagram, b\'\', 0, ...) is '
+                    'dropped although the hub delivered it - the destination sees it zero times, the sinks of the same endpoint once' % (fi.qualname, bad[0], bad[1])) if bad else 'ok',
+                   line=bad[2] if bad else None)
+        rep.floor('R19.9', 'sendData implementations examined', n, 2)
+
     def _table_refs(self, t):
         """tables written by storing to / mutating expression t (any receiver whose attribute is a table name,
         restricted to receivers that can be a Comms: `self` inside Comms, or any non-self receiver)."""
@@ -706,3 +760,4 @@ def check(model, rep):
     ck.r195()
     ck.r197()
     ck.r198()
+    ck.r199()
